@@ -48,6 +48,27 @@ USES = {
     "in-builder": "def m9 := [{n} + q9 | q9 in l]",
 }
 CONTEXTS = ["top", "function", "if", "method"]
+# every syntactic position an expression can stand in: a name that is never defined (or only later) is rejected in each
+USE_POSITIONS = {
+    "range-from": "for i9 in {n} .. 5 do print(i9)", "range-to": "for i9 in 0 .. {n} do print(i9)", "range-step": "for i9 in 0 .. 9 .. {n} do print(i9)",
+    "range-incl-to": "for i9 in 0 ..= {n} do print(i9)", "range-incl-step": "for i9 in 0 ..= 9 .. {n} do print(i9)", "range-step-nested": "for i9 in 0 .. 9 .. (1 + {n}) do print(i9)",
+    "range-value-step": "def r9 := 0 .. 9 .. {n}", "slice-from": "def s9 := l[{n} :: 2]", "slice-to": "def s9 := l[0 :: {n}]", "slice-step": "def s9 := l[0 :: 2 :: {n}]",
+    "slice-incl-step": "def s9 := l[0 ::= 2 :: {n}]", "index": "def s9 := l[{n}]", "call-argument": "def s9 := g2({n}, 1)", "call-second-argument": "def s9 := g2(1, {n})",
+    "method-argument": "def s9 := Kq9().mq({n})", "constructor-argument": "def s9 := Bq9({n})", "operator-left": "def s9 := {n} * 2", "operator-right": "def s9 := 2 - {n}",
+    "unary-minus": "def s9 := -{n}", "not": "def s9 := not ({n} > 1)", "comparison": "def s9 := 1 < {n}", "power": "def s9 := 2 ^ {n}", "sqrt": "def s9 := sqrt {n}",
+    "interpolation": "def s9 := \"v {{n}} w\"", "list-element": "def s9 := [1, {n}]", "set-element": "def s9 := {{1, {n}}}", "tuple-element": "def s9 := (1, {n})",
+    "dict-key": "def s9 := {{{n} => 1}}", "dict-value": "def s9 := {{1 => {n}}}", "builder-element": "def s9 := [{n} + q9 | q9 in l]", "builder-collection": "def s9 := [q9 | q9 in {n}]",
+    "builder-condition": "def s9 := [q9 | q9 in l, q9 > {n}]", "if-condition": "if {n} > 1 then print(1)", "if-expression-branch": "def s9 := if a > 1 then {n} else 2",
+    "if-expression-else": "def s9 := if a > 1 then 2 else {n}", "while-condition": "while {n} > 5 do print(1)", "for-collection": "for i9 in {n} do print(i9)",
+    "match-subject": "match {n}\n    1 => print(1)\n    _ => print(2)", "match-arm-body": "match a\n    1 => print({n})\n    _ => print(2)", "match-arm-value": "def s9 := match a\n    1 => {n}\n    _ => 2",
+    "return": "def f9() -> Int => {n}", "return-statement": "def f9() -> Int =>\n    return {n}", "raise-argument": "def f9() -> Int raise [E] => raise E(\"m {{n}}\")",
+    "default-value": "def f9(p9: Int := {n}) -> Int => p9", "lambda-body": "def h9 := \\q9: Int => q9 + {n}", "handle-subject": "def s9 := g({n}) handle\n    err: E => 0",
+    "handle-arm-body": "def s9 := g(1) handle\n    err: E => {n}", "field-initialiser": "class F9\n    def f: Int := {n}", "receiver": "def s9 := {n}.mq(1)", "isa-subject": "def s9 := {n} isa Kq9",
+    "reassign-value": "a := {n}", "augmented-value": "a += {n}", "field-assign-value": "def o9 := Bq9(1)\no9.v := {n}", "question-left": "def s9: Int := {n} ? 1", "in-left": "def s9 := {n} in l", "in-right": "def s9 := 1 in {n}",
+    "print-argument": "print({n})", "nested-call": "print(g2(g2({n}, 1), 2))", "with-resource": "with {n} as w9 do print(1)", "parent-argument": "class P9(def pv: Int)\nclass C9: P9({n})",
+}
+USE_PRE_IN = ""
+USE_PRE = "def g2(p: Int, q: Int) -> Int => p + q\nclass Kq9\n    def mq(fin self, p: Int) -> Int => p\nclass Bq9(def v: Int)\n"
 
 
 def ind(text, n):
@@ -89,6 +110,15 @@ def matrix():
             continue
         out.append(("later/%s/top" % uk, PRE + use.replace("{n}", "lt") + "\ndef lt := 1\n", "reject"))
         out.append(("later/%s/function" % uk, place("function", use.replace("{n}", "lt") + "\ndef lt := 1\n"), "reject"))
+    for pk, tmpl in USE_POSITIONS.items():
+        body = tmpl.replace("{{n}}", "{zq9}").replace("{n}", "zq9").replace("{{", "{").replace("}}", "}")
+        out.append(("undefined-at/%s/top" % pk, PRE + USE_PRE + body + "\n", "reject"))
+        ok = tmpl.replace("{{n}}", "{a}").replace("{n}", "a").replace("{{", "{").replace("}}", "}")
+        if pk not in ("builder-collection", "for-collection", "receiver", "isa-subject", "in-right", "with-resource", "question-left"):
+            out.append(("defined-at/%s/top" % pk, PRE + USE_PRE + ok + "\n", "accept"))
+        if not body.startswith("class ") and "def f9" not in body and "def h9" not in body:
+            out.append(("undefined-at/%s/function" % pk, place("function", USE_PRE_IN + body + "\n").replace(PRE, PRE + USE_PRE), "reject"))
+            out.append(("later-at/%s/top" % pk, PRE + USE_PRE + body.replace("zq9", "lt9") + "\ndef lt9 := 1\n", "reject"))
     out.append(("later/function-body-reads-later-global", PRE + "def f8() -> Int => lt\ndef lt := 1\nprint(f8())\n", "reject"))
     out.append(("later/call-of-function-defined-later", PRE + "print(fl(1))\ndef fl(x: Int) -> Int => x\n", "reject"))
     out.append(("later/instance-of-class-defined-later", PRE + "def o9 := Kl(1)\nclass Kl(def v: Int)\n", "reject"))
@@ -116,6 +146,13 @@ def matrix():
     out.append(("ctor/local-variable-same-name", "class C1\n    def level: Int\n    def __init__(self) =>\n        def level := 3\n        print(level)\n", "reject"))
     out.append(("ctor/nullable-needs-no-assignment", "class C1\n    def level: Int?\n    def __init__(self) =>\n        print(1)\n", "accept"))
     out.append(("ctor/assigned-in-loop-only", "class C1\n    def level: Int\n    def __init__(self) =>\n        for i in 0 .. 2 do\n            self.level := i\n", "reject"))
+    RISKY = "def risky(n: Int) -> Int raise [Exception] => if n > 0 then n else raise Exception(\"no\")\n"
+    out.append(("ctor/assigned-in-handle-arm-only", RISKY + "class C1\n    def level: Int\n    def __init__(self) =>\n        def r := risky(1) handle\n            err: Exception =>\n                self.level := 1\n                0\n", "reject"))
+    out.append(("ctor/assigned-before-handle", RISKY + "class C1\n    def level: Int\n    def __init__(self) =>\n        self.level := 1\n        def r := risky(1) handle\n            err: Exception => 0\n", "accept"))
+    out.append(("ctor/return-before-assign", "class C1\n    def level: Int\n    def __init__(self, n: Int) =>\n        if n = 0 then\n            return\n        self.level := 1\n", "reject"))
+    out.append(("ctor/return-after-assign", "class C1\n    def level: Int\n    def __init__(self, n: Int) =>\n        self.level := 1\n        if n = 0 then\n            return\n        print(n)\n", "accept"))
+    out.append(("ctor/assigned-in-while-only", "class C1\n    def level: Int\n    def __init__(self, n: Int) =>\n        while n > 3 do\n            self.level := 1\n", "reject"))
+    out.append(("ctor/assigned-in-match-arm-only", "class C1\n    def level: Int\n    def __init__(self, n: Int) =>\n        match n\n            1 => self.level := 1\n            _ => print(n)\n", "reject"))
     out.append(("ctor/compound-before-assign", "class C1\n    def level: Int\n    def __init__(self) =>\n        self.level += 1\n        self.level := 2\n", "reject"))
     return out
 
